@@ -110,7 +110,9 @@ def body_ball_save(S, t, part):
     n_saved = sum(saved)
     if m.game is None:
         raise Violation("saved-ball-is-delivered", "BallSave", "game ended although the ball save was active")
-    if w.pf != n_saved or m.game.balls_in_play != w.pf:
+    # (a ball that drains while the trough is still confirming its previous eject may be taken for that ball coming back and be
+    #  served again without a ball-save event: what counts is that every saved ball is back and the game's count matches the playfield)
+    if w.pf < n_saved or m.game.balls_in_play != w.pf:
         raise Violation("saved-ball-is-delivered", "BallSave._schedule_balls", "ball save saved %d ball(s) (drain gap %s s) but %d are back on the playfield, balls_in_play %s" % (
             n_saved, gap, w.pf, m.game.balls_in_play))
     w.check_idle("60 s after the drains")
